@@ -741,4 +741,248 @@ theorem runEntries_rep_le {infos s H latest} (rep : Rep infos s H latest) (h0 : 
     exact ih rep' (lt_of_lt_of_le h0 hm.1) (hle x (List.mem_cons_self ..)) hm.2
       (fun y hy => hle y (List.mem_cons_of_mem _ hy))
 
+/-! ## small steps: the model at yield-point granularity is the reference small step -/
+
+theorem checkPhase_spec {infos s H latest} (rep : Rep infos s H latest) {now : Nat} (hle : latest ≤ now) (h0 : 0 < now)
+    (res b : Nat) :
+    (checkPhase s res now b).2 = refCheck RuleInfo.feed infos H res now b ∧
+    Rep infos (checkPhase s res now b).1 H now ∧
+    lookup (checkPhase s res now b).1.nodes res ≠ none ∧
+    ∀ q, lookup s.nodes q ≠ none → lookup (checkPhase s res now b).1.nodes q ≠ none := by
+  have rep1 := rep.ensure hle h0 res
+  refine ⟨?_, rep1, lookup_ensure_self s.nodes res now, ?_⟩
+  · show checkList s.ctrls (ensure s.nodes res now) res now b = _
+    rw [← rep.shape]
+    exact checkList_eq_refCheck s.ctrls _ H res now b (fun c hc => rep1.blocks_eq (le_refl _) c hc b)
+  · intro q hq
+    show lookup (ensure s.nodes res now) q ≠ none
+    cases hl : lookup s.nodes q with
+    | none => exact absurd hl hq
+    | some x => rw [lookup_ensure_some hl]; simp
+
+theorem statPhase_nodes_ne_none (s : St) (res now b : Nat) (d : Option Nat) (q : Nat) :
+    lookup (statPhase s res now b d).nodes q ≠ none ↔ lookup s.nodes q ≠ none := by
+  cases d <;> simp only [statPhase] <;> exact lookup_touches_ne_none ..
+
+/-- every thread that is parked between check and record has its resource node -/
+def ParkedOk (s : St) (ths : List Thread) : Prop :=
+  ∀ th ∈ ths, ∀ d, th.st = some (d, false) → lookup s.nodes th.res ≠ none
+
+theorem ParkedOk.mono {s s' : St} {ths : List Thread} (h : ParkedOk s ths)
+    (hn : ∀ q, lookup s.nodes q ≠ none → lookup s'.nodes q ≠ none) : ParkedOk s' ths :=
+  fun th hth d hd => hn _ (h th hth d hd)
+
+theorem stepThread_spec {infos s H latest} (rep : Rep infos s H latest) {now : Nat} (hle : latest ≤ now) (h0 : 0 < now)
+    (ths : List Thread) (pk : ParkedOk s ths) (i : Nat) :
+    (stepThread s now ths i).2 = (refStepThread RuleInfo.feed infos H now ths i).2 ∧
+    Rep infos (stepThread s now ths i).1 (refStepThread RuleInfo.feed infos H now ths i).1 now ∧
+    ParkedOk (stepThread s now ths i).1 (stepThread s now ths i).2 := by
+  unfold stepThread refStepThread
+  cases hi : ths[i]? with
+  | none => exact ⟨rfl, ⟨rep.shape, fun r a h => (rep.nodes r a h).idle hle, rep.srcNode, rep.hNode,
+      fun c hc n L hg => let ⟨a, b, t⟩ := rep.own c hc n L hg; ⟨a, b, t.idle hle⟩, rep.view, rep.nbad⟩, pk⟩
+  | some th =>
+    have hmem : th ∈ ths := List.mem_of_getElem? hi
+    simp only
+    cases hst : th.st with
+    | none =>
+      obtain ⟨hd, rep1, hself, hmono⟩ := checkPhase_spec rep hle h0 th.res th.b
+      simp only
+      refine ⟨by rw [hd], rep1, ?_⟩
+      intro t ht d hd'
+      rcases List.mem_or_eq_of_mem_set ht with h | h
+      · exact hmono _ (pk t h d hd')
+      · subst h; exact hself
+    | some p =>
+      obtain ⟨d, fl⟩ := p
+      cases fl with
+      | true =>
+        simp only
+        exact ⟨trivial, ⟨rep.shape, fun r a h => (rep.nodes r a h).idle hle, rep.srcNode, rep.hNode,
+          fun c hc n L hg => let ⟨a, b, t⟩ := rep.own c hc n L hg; ⟨a, b, t.idle hle⟩, rep.view, rep.nbad⟩, pk⟩
+      | false =>
+        simp only
+        have hnode := pk th hmem d hst
+        have repn : Rep infos s H now := ⟨rep.shape, fun r a h => (rep.nodes r a h).idle hle, rep.srcNode, rep.hNode,
+          fun c hc n L hg => let ⟨a, b, t⟩ := rep.own c hc n L hg; ⟨a, b, t.idle hle⟩, rep.view, rep.nbad⟩
+        refine ⟨trivial, ?_, ?_⟩
+        · cases d with
+          | none => simpa using repn.pass th.res th.b hnode
+          | some j => simpa using repn.block th.res th.b j
+        · intro t ht d' hd'
+          rw [statPhase_nodes_ne_none]
+          rcases List.mem_or_eq_of_mem_set ht with h | h
+          · exact pk t h d' hd'
+          · subst h; exact hnode
+
+theorem runSched_eq_ref {infos s H latest} (rep : Rep infos s H latest) {now : Nat} (hle : latest ≤ now) (h0 : 0 < now)
+    (ths : List Thread) (pk : ParkedOk s ths) (sched : List Nat) :
+    (runSched s now ths sched).2 = (refRunSched RuleInfo.feed infos H now ths sched).2 ∧
+    Rep infos (runSched s now ths sched).1 (refRunSched RuleInfo.feed infos H now ths sched).1 now := by
+  induction sched generalizing s H latest ths with
+  | nil =>
+    exact ⟨rfl, ⟨rep.shape, fun r a h => (rep.nodes r a h).idle hle, rep.srcNode, rep.hNode,
+      fun c hc n L hg => let ⟨a, b, t⟩ := rep.own c hc n L hg; ⟨a, b, t.idle hle⟩, rep.view, rep.nbad⟩⟩
+  | cons i r ih =>
+    obtain ⟨h1, h2, h3⟩ := stepThread_spec rep hle h0 ths pk i
+    simp only [runSched, refRunSched]
+    rw [← h1]
+    exact ih h2 (le_refl _) _ h3
+
+
+/-! ## the overshoot bound for `k` callers inside the admission path -/
+
+/-- the largest count a threshold lets through (`none`: no finite cap) -/
+def Thr.cap : Thr → Option Nat
+  | .frac num den => if den = 0 then none else some (num / den)
+  | _ => none
+
+theorem Thr.exceeds_iff_cap (T : Thr) (N : Nat) : T.exceeds N = true ↔ ∃ t, T.cap = some t ∧ t < N := by
+  cases T with
+  | unbounded => simp [Thr.exceeds, Thr.cap]
+  | invalid => simp [Thr.exceeds, Thr.cap]
+  | frac num den =>
+    simp only [Thr.exceeds, Thr.cap, decide_eq_true_eq]
+    by_cases hd : den = 0
+    · simp [hd]
+    · simp only [hd, if_false, Option.some.injEq, exists_eq_left']
+      exact (Nat.div_lt_iff_lt_mul (Nat.pos_of_ne_zero hd)).symm
+
+theorem sum_map_set {α : Type} (g : α → Nat) (ths : List α) (i : Nat) (th th' : α) (h : ths[i]? = some th) :
+    ((ths.set i th').map g).sum + g th = (ths.map g).sum + g th' := by
+  induction ths generalizing i with
+  | nil => simp at h
+  | cons a r ih =>
+    cases i with
+    | zero =>
+      simp only [List.getElem?_cons_zero, Option.some.injEq] at h; subst h
+      simp only [List.set_cons_zero, List.map_cons, List.sum_cons]; omega
+    | succ j =>
+      simp only [List.getElem?_cons_succ] at h
+      have := ih j h
+      simp only [List.set_cons_succ, List.map_cons, List.sum_cons]; omega
+
+/-- tokens an admitted, not yet recorded thread is about to add to resource `R` -/
+def pending (R : Nat) (th : Thread) : Nat := if th.st = some (none, false) ∧ th.res = R then th.b else 0
+/-- 1 for a thread parked between its check and its record -/
+def parked (th : Thread) : Nat := match th.st with | some (_, false) => 1 | _ => 0
+def nParked (ths : List Thread) : Nat := (ths.map parked).sum
+
+/-- the schedule never lets more than `k` callers be inside the admission path at once -/
+def WidthOk (k : Nat) (f : RuleInfo → Nat) (cs : List RuleInfo) (H : List Arrival) (now : Nat) (ths : List Thread) :
+    List Nat → Prop
+  | [] => True
+  | i :: r => (∀ th, ths[i]? = some th → th.st = none → nParked ths < k) ∧
+      WidthOk k f cs (refStepThread f cs H now ths i).1 now (refStepThread f cs H now ths i).2 r
+
+theorem pending_le (R B : Nat) (ths : List Thread) (hB : ∀ th ∈ ths, th.b ≤ B) :
+    (ths.map (pending R)).sum ≤ nParked ths * B := by
+  unfold nParked
+  induction ths with
+  | nil => simp
+  | cons a r ih =>
+    have := ih (fun th h => hB th (List.mem_cons_of_mem _ h))
+    have ha := hB a (List.mem_cons_self ..)
+    simp only [List.map_cons, List.sum_cons, Nat.add_mul]
+    have : pending R a ≤ parked a * B := by
+      unfold pending parked
+      split_ifs with h
+      · rw [h.1]; simpa using ha
+      · exact Nat.zero_le _
+    omega
+
+theorem windowTokens_append_le (H : List Arrival) (a : Arrival) (R L Iv now : Nat) :
+    windowTokens (H ++ [a]) R L Iv now ≤ windowTokens H R L Iv now + (if a.res = R then a.b else 0) := by
+  unfold windowTokens
+  rw [histOf_append]
+  split_ifs with h
+  · rw [refW_append]; split_ifs <;> omega
+  · omega
+
+structure Burst (f : RuleInfo → Nat) (cs : List RuleInfo) (c : RuleInfo) (t k B now : Nat) (H : List Arrival) (ths : List Thread) : Prop where
+  bound : windowTokens H c.rule.res c.L c.Iv now + (ths.map (pending c.rule.res)).sum ≤ t + (k - 1) * B
+  small : ∀ th ∈ ths, th.b ≤ B
+
+theorem Burst.step {f cs c t k B now H ths} (bu : Burst f cs c t k B now H ths) (hc : c ∈ cs) (hf : f c = c.rule.res)
+    (hcap : c.rule.thr.cap = some t) (i : Nat)
+    (hw : ∀ th, ths[i]? = some th → th.st = none → nParked ths < k) :
+    Burst f cs c t k B now (refStepThread f cs H now ths i).1 (refStepThread f cs H now ths i).2 := by
+  unfold refStepThread
+  cases hi : ths[i]? with
+  | none => exact bu
+  | some th =>
+    have hmem : th ∈ ths := List.mem_of_getElem? hi
+    have hsmall : ∀ th' : Thread, th'.b = th.b → ∀ x ∈ ths.set i th', x.b ≤ B := by
+      intro th' hb x hx
+      rcases List.mem_or_eq_of_mem_set hx with h | h
+      · exact bu.small x h
+      · subst h; rw [hb]; exact bu.small th hmem
+    simp only
+    cases hst : th.st with
+    | none =>
+      simp only
+      refine ⟨?_, hsmall _ rfl⟩
+      have hs := sum_map_set (pending c.rule.res) ths i th
+        { th with st := some (refCheck f cs H th.res now th.b, false) } hi
+      have hp0 : pending c.rule.res th = 0 := by simp [pending, hst]
+      have hb := bu.bound
+      by_cases hadm : refCheck f cs H th.res now th.b = none ∧ th.res = c.rule.res
+      · have hp1 : pending c.rule.res { th with st := some (refCheck f cs H th.res now th.b, false) } = th.b := by
+          unfold pending; exact if_pos ⟨by rw [hadm.1], hadm.2⟩
+        have hroom := (refCheck_none_iff f cs H th.res now th.b).mp hadm.1 c hc hadm.2.symm
+        rw [hf] at hroom
+        have hle : windowTokens H c.rule.res c.L c.Iv now + th.b ≤ t := by
+          by_contra hx
+          have : c.rule.thr.exceeds (windowTokens H c.rule.res c.L c.Iv now + th.b) = true :=
+            (Thr.exceeds_iff_cap _ _).mpr ⟨t, hcap, by omega⟩
+          rw [this] at hroom; cases hroom
+        have hpk := hw th hi hst
+        have hpl := pending_le c.rule.res B ths bu.small
+        have : nParked ths * B ≤ (k - 1) * B := Nat.mul_le_mul_right _ (by omega)
+        omega
+      · have hp1 : pending c.rule.res { th with st := some (refCheck f cs H th.res now th.b, false) } = 0 := by
+          unfold pending
+          rw [if_neg]
+          intro h
+          apply hadm
+          simp only [Option.some.injEq, Prod.mk.injEq, and_true] at h
+          exact h
+        omega
+    | some p =>
+      obtain ⟨d, fl⟩ := p
+      cases fl with
+      | true => simpa using bu
+      | false =>
+        simp only
+        refine ⟨?_, hsmall _ rfl⟩
+        have hs := sum_map_set (pending c.rule.res) ths i th { th with st := some (d, true) } hi
+        have hp1 : pending c.rule.res { th with st := some (d, true) } = 0 := by simp [pending]
+        have hb := bu.bound
+        cases d with
+        | some j =>
+          have hp0 : pending c.rule.res th = 0 := by simp [pending, hst]
+          simp only [Option.isNone_some, Bool.false_eq_true, if_false]
+          omega
+        | none =>
+          simp only [Option.isNone_none, if_true]
+          have hwl := windowTokens_append_le H { t := now, res := th.res, b := th.b } c.rule.res c.L c.Iv now
+          dsimp only at hwl
+          by_cases hr : th.res = c.rule.res
+          · have hp0 : pending c.rule.res th = th.b := by simp [pending, hst, hr]
+            rw [if_pos hr] at hwl
+            omega
+          · have hp0 : pending c.rule.res th = 0 := by simp [pending, hr]
+            rw [if_neg hr] at hwl
+            omega
+
+theorem Burst.run {f cs c t k B now H ths} (bu : Burst f cs c t k B now H ths) (hc : c ∈ cs) (hf : f c = c.rule.res)
+    (hcap : c.rule.thr.cap = some t) (sched : List Nat) (hw : WidthOk k f cs H now ths sched) :
+    Burst f cs c t k B now (refRunSched f cs H now ths sched).1 (refRunSched f cs H now ths sched).2 := by
+  induction sched generalizing H ths with
+  | nil => exact bu
+  | cons i r ih =>
+    simp only [refRunSched]
+    exact ih (bu.step hc hf hcap i hw.1) hw.2
+
+
 end Sentinel.FlowReject
